@@ -545,10 +545,37 @@ func BoundVar(name string, sort *Sort) *Term {
 	return TS.mk("bound", fmt.Sprintf("%s?%d", sanitize(name), TS.fresh["bv"]), sort)
 }
 
+// patternOK: solvers reject patterns that contain boolean connectives, ite or arithmetic comparison.
+func patternOK(t *Term) bool {
+	switch t.op {
+	case "and", "or", "not", "ite", "=>", "=", "<", "<=", "forall", "exists":
+		return false
+	}
+	for _, a := range t.args {
+		if !patternOK(a) {
+			return false
+		}
+	}
+	return true
+}
+
 func Forall(vars []*Term, body *Term, patterns ...[]*Term) *Term {
 	if body == True {
 		return True
 	}
+	var okp [][]*Term
+	for _, p := range patterns {
+		good := true
+		for _, t := range p {
+			if !patternOK(t) {
+				good = false
+			}
+		}
+		if good {
+			okp = append(okp, p)
+		}
+	}
+	patterns = okp
 	args := append([]*Term{}, vars...)
 	args = append(args, body)
 	val := strconv.Itoa(len(vars))
